@@ -61,7 +61,7 @@ def main():
     pid, name = sys.argv[1], sys.argv[2]
     src = f'/tmp/seed/{pid}/out'
     diff, demo, meta = f'{src}/{name}.diff', f'{src}/{name}_demo.py', f'{src}/{name}.json'
-    for base in ('/tmp/seed_out', '/tmp/seed_out3', '/tmp/seed_out4', '/tmp/seed_out5', '/tmp/seed_out6', '/tmp/seed_out7'):          # later rounds: one directory per change
+    for base in ('/tmp/seed_out', '/tmp/seed_out3', '/tmp/seed_out4', '/tmp/seed_out5', '/tmp/seed_out6', '/tmp/seed_out7', '/tmp/seed_out8'):          # later rounds: one directory per change
         alt = f'{base}/{pid}_{name}'
         if os.path.isdir(alt):
             diff, demo, meta = f'{alt}/patch.diff', f'{alt}/demo.py', f'{alt}/meta.json'
